@@ -93,7 +93,8 @@ def builder_check(prop, tier, seed, replay, mask, suites, model=None, assumption
     if required:
         missing = [r for r in required if kinds.get(r, 0) == 0]
         if missing:
-            raise ToolError("vacuous run: call outcomes never exercised: %s" % missing)
+            if not rep.new:
+                raise ToolError("vacuous run: call outcomes never exercised: %s" % missing)
     rc = rep.finish()
     cov = {"traces_validated_against_impl": total, "samples": samples or [{"note": "no call sampled"}], "methods_called": len(methods_cov),
            "call_outcomes": kinds, "exhaustive": False}
